@@ -4,6 +4,8 @@ package storeprops
 
 import (
 	"fmt"
+	"github.com/streamingfast/substreams/pipeline/exec"
+	"github.com/streamingfast/substreams/storage/execout"
 	"sort"
 	"strings"
 	"testing"
@@ -108,6 +110,20 @@ func checkC09(c c09Case) *ev.Failure {
 			}
 			twin.Reset()
 		}
+		// a third store replays the logs through the cache-hit path of exec.RunModule (a store executor whose log
+		// sits in the block's output buffer): the deltas it hands to its consumers are the original ones
+		viaRun := e.cfg.NewFullKV(nop)
+		{
+			n2 := uint64(0)
+			for _, ops := range c.Pre {
+				if _, err := execBlock(viaRun, c.Kind, n2, ops); err != nil {
+					return ev.Failf("exec-error", "pre block failed: %v", err)
+				}
+				n2++
+			}
+			viaRun.Reset()
+		}
+		runExec := exec.NewStoreModuleExecutor(exec.NewBaseExecutor(ctx, "st", 0, nil, false, nil, nil, "st", nil), viaRun)
 		var logs [][]byte
 		var wants [][]*pbsubstreams.StoreDelta
 		var contents []map[string][]byte
@@ -131,6 +147,36 @@ func checkC09(c c09Case) *ev.Failure {
 			}
 			if wantSize != twin.SizeBytes() {
 				return ev.Failf("full/size", "block %d: SizeBytes original %d replay %d", i, wantSize, twin.SizeBytes())
+			}
+			// the same log on the cache-hit path of RunModule
+			viaRun.Reset()
+			buf, err := execout.NewBuffer("", nil, &pbsubstreams.Clock{Number: uint64(i) + 1, Id: fmt.Sprintf("b%d", i)})
+			if err != nil {
+				return ev.Failf("harness", "%v", err)
+			}
+			if err := buf.Set("st", log); err != nil {
+				return ev.Failf("harness", "%v", err)
+			}
+			out, gotBytes, _, skipped, err := exec.RunModule(ctx, runExec, buf)
+			if err != nil || skipped || out == nil || !out.GetCached() {
+				return ev.Failf("run-module/not-a-cache-hit", "block %d: RunModule with the log in the buffer: err=%v skipped=%v cached=%v", i, err, skipped, out.GetCached())
+			}
+			handed := &pbsubstreams.StoreDeltas{}
+			if err := proto.Unmarshal(gotBytes, handed); err != nil {
+				return ev.Failf("run-module/deltas-undecodable", "block %d: the bytes RunModule hands to the consumers of the store do not decode as deltas: %v", i, err)
+			}
+			for name, got := range map[string][]*pbsubstreams.StoreDelta{"module output": out.GetStoreDeltas().GetStoreDeltas(), "bytes for the consumers": handed.StoreDeltas} {
+				if len(got) != len(wantDeltas) {
+					return ev.Failf("run-module/deltas", "block %d: RunModule on a cache hit gives %d deltas (%s), the original execution %d\noriginal: %s\nreplay:   %s", i, len(got), name, len(wantDeltas), deltasString(wantDeltas), deltasString(got))
+				}
+				for j := range got {
+					if !proto.Equal(got[j], wantDeltas[j]) {
+						return ev.Failf("run-module/deltas", "block %d: delta %d differs (%s)\noriginal: %s\nreplay:   %s", i, j, name, deltasString(wantDeltas), deltasString(got))
+					}
+				}
+			}
+			if d := bytewiseDiff(wantContent, sdsl.Snapshot(viaRun)); d != "" {
+				return ev.Failf("run-module/content", "block %d: content differs after RunModule replayed the log: %s", i, d)
 			}
 			return nil
 		}
@@ -272,7 +318,7 @@ func classifyC09(c c09Case) (bool, []string) {
 }
 
 func TestC09(t *testing.T) {
-	ev.Get("C09", "ReplayOps").Rule = "rapid: every kind in rotation; pre-state from 0..3 blocks, then 1..4 blocks (20% delete_prefix, arbitrary ordinals) executed through the host interface, log read with ReadOps after Flush, replayed with Reset+ApplyOps (block by block, or, 1 case in 3, all logs kept as handed out and replayed after the last block) on a twin (same history or loaded from the saved snapshot) full store (deltas proto-equal, content bytewise, size) or partial store (content, size, DeletedPrefixes, and the squash of the replayed partial vs the original one); non-trivial = a block with a delete_prefix or two ops on one key"
+	ev.Get("C09", "ReplayOps").Rule = "rapid: every kind in rotation; pre-state from 0..3 blocks, then 1..4 blocks (20% delete_prefix, arbitrary ordinals) executed through the host interface, log read with ReadOps after Flush, replayed with Reset+ApplyOps (block by block, or, 1 case in 3, all logs kept as handed out and replayed after the last block) on a twin (same history or loaded from the saved snapshot) full store (deltas proto-equal, content bytewise, size; and through the cache-hit path of exec.RunModule with the log in the block buffer: the module output and the bytes handed to the consumers decode to the original deltas) or partial store (content, size, DeletedPrefixes, and the squash of the replayed partial vs the original one); non-trivial = a block with a delete_prefix or two ops on one key"
 	kinds := sdsl.AllKinds()
 	shard, _ := ev.Shard()
 	ev.Prop(t, "C09", "ReplayOps", func(t *rapid.T) c09Case {
